@@ -1678,7 +1678,7 @@ def generate(force_fallback):
         try:
             sig, _ = find_fn(src, n)
             kinds[n] = parse_sig(sig)[1][1]
-        except TErr:
+        except Exception:
             pass
     failed = []
     texts, rkinds = {}, {}
